@@ -190,9 +190,45 @@ func hashKindCases(g *Gen, o *Out) {
 	}
 }
 
+// repeatCases: the same block stored twice (legal: concatenated archives); the LATER copy is
+// corrupted or cut, so a reader that remembers what it has already verified is caught.
+func repeatCases(g *Gen, o *Out) {
+	a, b := g.BlockWith(g.bytes(20+g.pick(40))), g.Block()
+	bs := []Blk{a, b, a}
+	o.HashBlocks(bs)
+	r := []cid.Cid{a.C}
+	for _, v1 := range []bool{true, false} {
+		arch := writeAll(r, bs, v1)
+		end := len(arch)
+		ver := 1
+		if !v1 {
+			ver = 2
+			end = int(leU64(arch[27:35]) + leU64(arch[35:43]))
+		}
+		ro := defaultReadOpts()
+		desc := fmt.Sprintf("roots=%s blocks=%s ver=%d dp=0 arch=%s", rootsArg(r), blocksStr(bs), ver, hex.EncodeToString(arch))
+		for _, back := range []int{1, 5, len(a.D)} {
+			i := end - back
+			mutd := append([]byte{}, arch...)
+			mutd[i] ^= byte(1 << g.pick(8))
+			refSections(mutd, o.Hash)
+			for _, rd := range scanReaders[:2] {
+				o.Line(fmt.Sprintf("mut rd=%s %s %s flip=%d xor=%d", rd, ro, desc, i, mutd[i]^arch[i]), runReader(rd, ro, mutd)+" archok=1")
+			}
+			o.Line(fmt.Sprintf("inspect full=1 %s in=%s", ro, hexOr(mutd)), runInspect(mutd, ro, true))
+			if v1 {
+				cut := arch[:end-back]
+				o.Line(fmt.Sprintf("inspect full=1 %s in=%s", ro, hexOr(cut)), runInspect(cut, ro, true))
+			}
+			o.Count("repeat-later-copy")
+		}
+	}
+}
+
 func famC02(g *Gen, o *Out, n int, thorough bool) {
 	bigSectionCases(g, o, thorough)
 	hashKindCases(g, o)
+	repeatCases(g, o)
 	for c := 0; c < n; c++ {
 		maxB := 4
 		if thorough {
@@ -242,6 +278,10 @@ func famC02(g *Gen, o *Out, n int, thorough bool) {
 			res := runReader(rd, ro, mutd)
 			o.Line(fmt.Sprintf("mut rd=%s %s %s flip=%d xor=%d", rd, ro, desc, i, x), res+" archok=1")
 			o.Count("flip/" + rd)
+			if g.pick(2) == 0 { // full inspection is a scanning reader too: it must report what the scan reports
+				o.Line(fmt.Sprintf("inspect full=1 %s in=%s", ro, hexOr(mutd)), runInspect(mutd, ro, true))
+				o.Count("flip/inspect")
+			}
 		}
 		// arbitrary byte strings: random, and structure-aware splices of the archive
 		for j := 0; j < 6; j++ {
